@@ -248,7 +248,8 @@ func runV2Store(r *core.Run) {
 		}
 		// (3) swap / copy / forge and (4) tamper, on the final state of this history
 		if h < r.N(4, 40) {
-			swapAndTamper(r, rd, w, dir == "" || r.Thorough())
+			// all 255 values of every byte only for the first in-memory histories of the thorough tier
+			swapAndTamper(r, rd, w, dir == "" || (r.Thorough() && h < 12), r.Thorough() && dir == "" && exhaustiveTampers < 3)
 		}
 		if sb != nil {
 			w.ks.Close()
@@ -271,7 +272,9 @@ func (w *v2World) readerOpens(path string) (api.KeyRing, error) {
 	return ks.OpenKeyRing(path)
 }
 
-func swapAndTamper(r *core.Run, rd *core.Rand, w *v2World, tamper bool) {
+var exhaustiveTampers int
+
+func swapAndTamper(r *core.Run, rd *core.Rand, w *v2World, tamper bool, allValues bool) {
 	inner := w.lb.Backend
 	files := map[string][]byte{}
 	var paths []string
@@ -396,13 +399,16 @@ func swapAndTamper(r *core.Run, rd *core.Rand, w *v2World, tamper bool) {
 	if !tamper {
 		return
 	}
+	if allValues {
+		exhaustiveTampers++
+	}
 	for ai, a := range paths {
 		if !r.Thorough() && ai >= 2 {
 			break
 		}
 		d := files[a]
 		vals := []byte{0x01}
-		if r.Thorough() {
+		if allValues {
 			vals = nil
 		}
 		undetected := 0
